@@ -134,9 +134,18 @@ impl Wut {
             };
         }
         if api == "flow" {
+            let mut req = req;
+            let te_in_prepare = kind == Kind::Chunked && !explicit_te && variant % 9 == 4;
+            if te_in_prepare && variant % 2 == 0 {
+                // the request object came with a Content-Length; the caller then declares the chunked coding on the flow
+                req.headers_mut().insert("content-length", ureq_proto::http::HeaderValue::from_static("7"));
+            }
             let mut f0 = Flow::new(req).unwrap();
             if let (Kind::Sized(n), 3) = (kind, variant % 7) {
                 f0.header("content-length", n.to_string()).unwrap();
+            }
+            if te_in_prepare {
+                f0.header("transfer-encoding", "chunked").unwrap();
             }
             if despite {
                 f0.send_body_despite_method();
@@ -224,6 +233,11 @@ pub fn start_case(t: &mut Tracer, api: &str, kind: Kind, explicit_te: bool, note
     // every fourth writer belongs to an HTTP/1.0 request (POST exists there too)
     let ver10 = t.cases % 4 == 3;
     let variant = (t.cases / 2) as usize;
+    start_case_shape(t, api, kind, explicit_te, note, ver10, variant)
+}
+
+/// the writer of a request of a given shape (`variant` selects method, headers and the way to the send-body state)
+pub fn start_case_shape(t: &mut Tracer, api: &str, kind: Kind, explicit_te: bool, note: &str, ver10: bool, variant: usize) -> Wut {
     // a failure of the harness's own expectations on the way to the send-body state is data, not a crash
     let w = guarded(|| Wut::new_vv(api, kind, explicit_te, ver10, variant));
     let (k, n) = match kind {
@@ -593,6 +607,26 @@ pub fn c04(o: &Opts, t: &mut Tracer) {
             c04_schedule(t, api, n, &mut rng, &data, st + (i as u32 % 5));
         }
     }
+    // small N on every request shape: bodiless methods with a forced body, Host / Expect / Connection variations,
+    // the length declared on the request or in the prepare state, reached through a redirect
+    for n in [0u64, 1, 2, 7] {
+        for variant in 0..36usize {
+            let kind = Kind::Sized(n);
+            let mut w = start_case_shape(t, "flow", kind, false, "request-shapes", false, variant);
+            t.sig(format!("shape/{}/{}", n, variant));
+            t.class("w:small-n-on-every-request-shape");
+            ev_direct(t, &mut w, 0);
+            ev_write(t, &mut w, kind, &data[..(n as usize + 1)], 64, WFlags::default());
+            if variant % 2 == 0 {
+                ev_write(t, &mut w, kind, &data[..n as usize], n as usize + 3, WFlags::default());
+            } else {
+                ev_direct(t, &mut w, n as usize);
+            }
+            ev_write(t, &mut w, kind, &[], 4, WFlags::default());
+            ev_write(t, &mut w, kind, &data[..1], 4, WFlags::default());
+            ev_direct(t, &mut w, 0);
+        }
+    }
     // single writes far larger than any internal step size
     let big = payload(600_000, 44);
     for (k, &(n, inl, outl)) in [(300_000u64, 400_000usize, 500_000usize), (300_000, 300_000, 290_000), (600_000, 600_000, 600_000), (262_145, 262_145, 262_144), (1 << 20, 600_000, 524_289)].iter().enumerate() {
@@ -753,6 +787,22 @@ pub fn c19(o: &Opts, t: &mut Tracer) {
             let mut w = start_case(t, APIS[outl % 2], kind, false, "sized-probe");
             t.sig(format!("sprobe/{}/{}", outl, inl));
             ev_write(t, &mut w, kind, &data[..inl], outl, WFlags::default());
+        }
+    }
+    // ... also after part of the body went to the transport directly (reported direct writes)
+    for (j, outl) in [1usize, 2, 7, 64].iter().enumerate() {
+        for amt in [0usize, 1, 100] {
+            let kind = Kind::Sized(1000);
+            let mut w = start_case(t, "flow", kind, false, "sized-after-direct-write");
+            t.sig(format!("sdirect/{}/{}", outl, amt));
+            t.class("w:write-after-direct-write");
+            if j % 2 == 0 {
+                ev_write(t, &mut w, kind, &data[..3], *outl, WFlags::default());
+            }
+            ev_direct(t, &mut w, amt);
+            ev_write(t, &mut w, kind, &data[..300], *outl, WFlags::default());
+            ev_direct(t, &mut w, amt);
+            ev_write(t, &mut w, kind, &data[..1], *outl, WFlags::default());
         }
     }
     // progress depends on the (input, room) pair only, not on what the writer emitted before:
